@@ -673,6 +673,112 @@ def gen_amend_history(rng):
     return h
 
 
+def gen_amend2_history(rng):
+    """Directed family for `augmented_by` / `deviated_by` and the compiled top-level nodes: two targets that are IMPLEMENTED when the
+    failing call starts — one parsed directly, the other one in the context as an import only and implemented later (by
+    lys_set_implemented, or as the augment target of a correct module) —; a module that augments AND deviates both of them (in
+    either order) fails at any stage; targets without revision, features that live in submodules, an earlier correct amender so
+    that the arrays are not empty before the call."""
+    sf = [Feat("s1"), Feat("s2", "s1")] if rng.random() < 0.6 else [Feat("s1")]
+    t1 = Mod("maa", rng.choice([None, None, "2019-01-01"]), data=True, subs=[Sub("maasub", sf, rng.random() < 0.5)],
+             feats=gen_feats(rng) if rng.random() < 0.4 else [])
+    t2 = Mod("mbb", rng.choice([None, None, "2020-02-02"]), data=True, feats=gen_feats(rng),
+             imports=[("maa", None)] if rng.random() < 0.4 else [])
+    if t2.imports and rng.random() < 0.5:
+        t2.augments.append("maa")
+    holder = Mod("mdd", None, imports=[("maa", None), ("mbb", None)], data=rng.random() < 0.5)
+    early = Mod("mcc", None, imports=[("maa", None), ("mbb", None)], data=rng.random() < 0.6)
+    for n in ("maa", "mbb"):
+        if rng.random() < 0.6: early.augments.append(n)
+        if rng.random() < 0.5: early.deviations.append((n, 2))
+    bad0 = Mod("mee", None, imports=[("mbb", None), ("maa", None)] if rng.random() < 0.5 else [("maa", None), ("mbb", None)],
+               data=rng.random() < 0.7)
+    bad0.augments = rng.sample(["maa", "mbb"], 2)
+    bad0.deviations = [(n, 3) for n in rng.sample(["maa", "mbb"], 2)]
+    if bad0.data and rng.random() < 0.3:
+        bad0.lrefs = [rng.choice(["maa", "mbb"])]
+    mods = [t1, t2, holder, early, bad0]
+    kind, tgt = rng.choice(applicable_edits(bad0, mods))
+    bad = apply_edit(bad0, kind, tgt, rng.choice([t1, t2]).ns)
+    good = Mod("mgood", None, imports=[("maa", None)], augments=["maa"], feats=[Feat("g1")])
+    h = History(EXPLICIT if rng.random() < 0.2 else 0)
+    for m in [t1, t2, holder, early, bad, good]:
+        h.add(m)
+    kinds = ["amend-two-targets", "bad-parse:" + kind]
+    order = rng.random()
+    if order < 0.5:
+        h.parse(t1, gen_featarg(rng, t1)); h.parse(holder, None)          # maa implemented, mbb import only
+        late = t2
+    else:
+        h.parse(holder, None); h.parse(t2, gen_featarg(rng, t2))          # both imports only, then mbb implemented
+        late = t1
+    if rng.random() < 0.5:
+        h.impl(late.name, late.rev, gen_featarg(rng, late)); kinds.append("impl")
+        if rng.random() < 0.6:
+            h.parse(early, None); kinds.append("parse")
+    else:
+        early.augments = [late.name] + [x for x in early.augments if x != late.name]      # implements `late` as its augment target
+        h.add(early)
+        h.parse(early, None); kinds.append("parse")
+        if rng.random() < 0.5:
+            other = t1 if late is t2 else t2
+            h.impl(other.name, other.rev, None)
+    if h.flags & EXPLICIT:
+        h.compile()
+    if rng.random() < 0.4:
+        h.data(rng.choice(["maa", "mbb"]))
+    h.parse(bad, gen_featarg(rng, bad))
+    if h.flags & EXPLICIT:
+        h.compile(); kinds.append("compile")
+    h.parse(good, rng.choice([None, ["g1"]])); kinds.append("good")
+    if rng.random() < 0.3:
+        h.add(bad0)                                                         # the edit is taken back: the module loads
+        h.parse(bad0, None); kinds.append("parse")
+    if h.flags & EXPLICIT:
+        h.compile()
+    h.meta = {"kinds": kinds}
+    return h
+
+
+def gen_yl_dev_history(rng):
+    """Directed family for the yang-library lists: modules without revision (and an alternative dated revision among the sources
+    for some), features that live in submodules only, `deviation` lists with two entries whose order depends on the history,
+    import-only modules with submodules."""
+    a = Mod("maa", rng.choice([None, None, "2019-01-01"]), data=True,
+            subs=[Sub("maasub", [Feat("s1")], rng.random() < 0.5), Sub("maasub2", [Feat("t1"), Feat("t2", "t1")], False)])
+    b = Mod("mbb", rng.choice([None, "2020-02-02"]), imports=[("maa", a.rev if (a.rev and rng.random() < 0.5) else None)], data=True,
+            deviations=[("maa", 1)], augments=["maa"] if rng.random() < 0.5 else [], feats=gen_feats(rng))
+    c = Mod("mcc", None, imports=[("maa", None), ("mbb", None)], data=rng.random() < 0.7, deviations=[("maa", 2), ("mbb", 2)],
+            subs=[Sub("mccsub", gen_feats(rng, "u"), False)] if rng.random() < 0.5 else [])
+    d = Mod("mdd", rng.choice([None, "2019-01-01"]), imports=[("mcc", None)] if rng.random() < 0.5 else [("maa", None)],
+            subs=[Sub("mddsub", [Feat("v1")], True)])
+    mods = [a, b, c, d]
+    h = History(EXPLICIT if rng.random() < 0.2 else 0)
+    for m in mods:
+        h.add(m)
+    if rng.random() < 0.25:
+        o = rng.choice([a, b])
+        alt = copy.deepcopy(o)
+        alt.rev = "2021-03-03"
+        for sub in alt.subs: sub.name += "x"
+        h.add(alt)
+    kinds = ["yl-lists"]
+    order = rng.sample(mods, rng.randint(2, 4))
+    for m in order:
+        r = rng.random()
+        if r < 0.6:
+            h.parse(m, gen_featarg(rng, m)); kinds.append("parse")
+        else:
+            h.load(m.name, m.rev, gen_featarg(rng, m)); kinds.append("load")
+    for _ in range(rng.randint(0, 2)):
+        m = rng.choice(mods)
+        h.impl(m.name, m.rev, gen_featarg(rng, m)); kinds.append("impl")
+    if h.flags & EXPLICIT:
+        h.compile()
+    h.meta = {"kinds": kinds}
+    return h
+
+
 def gen_yl_history(rng, mods=None, with_alt=True):
     """histories of successful (and a few refused) calls over unchanged sources: what a yang-library description is about"""
     mods = mods or gen_set(rng)
